@@ -2,7 +2,7 @@
    fails to compile if Props/C06.v is weakened, renamed or given other hypotheses. *)
 From Coq Require Import SpecFloat.
 Require Import Base Value Float PrintOptions Printer ParseOptions Utf8 Reader Scan Num NumberOps Parser.
-Require Import RelFramework IoProofs RoundtripProofs TextProofs SimFramework InterruptProofs.
+Require Import RelFramework IoProofs RoundtripProofs TextProofs SimFramework InterruptProofs CrossProofs SourcesAgree.
 Require Import Lexpr.Props.C06.
 Local Open Scope nat_scope.
 
@@ -37,6 +37,29 @@ Check (C06_sources_agree_partial :
   rt_ok alpha v -> rdepth v <= 127 ->
   from_trait default_ro alpha fast std_parse k1 (bytes_events (print0 ryu v)) =
   from_trait default_ro alpha fast std_parse k2 (bytes_events (print0 ryu v))).
+
+Check (C06_slice_stream_agree :
+  forall ro alpha fast std_parse (s : bytes),
+  match from_trait ro alpha fast std_parse SrcSlice (bytes_events s), from_trait ro alpha fast std_parse SrcIo (bytes_events s) with
+  | POk a, POk b => a = b
+  | PErr (XErr (ESyntax c1 _ _)), PErr (XErr (ESyntax c2 _ _)) => c1 = c2
+  | PErr (XErr (EIo a)), PErr (XErr (EIo b)) => a = b
+  | _, _ => False
+  end).
+
+Check (C06_slice_stream_every_call :
+  forall ro alpha fast std_parse fuel s1 s2, prel s1 s2 ->
+  fst (next_value ro alpha fast std_parse fuel s2) = PErr (XErr EFuel) \/
+  (rpres eq (fst (next_value ro alpha fast std_parse fuel s1)) (fst (next_value ro alpha fast std_parse fuel s2)) /\
+   prel (snd (next_value ro alpha fast std_parse fuel s1)) (snd (next_value ro alpha fast std_parse fuel s2)))).
+
+Check (C06_slice_stream_nonvacuous :
+  let bad : bytes := [40; 97; 32; 255; 41]%N in       (* "(a \xFF)": not UTF-8 *)
+  from_trait default_ro (fun _ => true) true dec_to_f64 SrcSlice (bytes_events bad) =
+    PErr (XErr (ESyntax InvalidUnicodeCodePoint 1 4)) /\
+  from_trait default_ro (fun _ => true) true dec_to_f64 SrcIo (bytes_events bad) =
+    PErr (XErr (ESyntax InvalidUnicodeCodePoint 1 4)) /\
+  prel (init_state SrcSlice (bytes_events bad)) (init_state SrcIo (bytes_events bad))).
 
 Check (C06_interrupts_invisible_call :
   forall ro alpha fast std_parse fuel s1 s2, iprel s1 s2 ->
